@@ -79,6 +79,31 @@ pub fn dump_instances<'tcx>(cx: &mut Cx<'tcx>) -> J {
         limit -= 1;
         let inst = list[i];
         let did = inst.def_id();
+        if !did.is_local() {
+            // Library generic (iterator adaptors, Option/Result combinators, ...): follow the calls of its
+            // MIR with the instance's arguments substituted, only to discover which local instances it
+            // reaches (e.g. `<Walk<..> as Iterator>::next` from `Iterator::any`).
+            if matches!(inst.def, ty::InstanceKind::Item(_))
+                && matches!(tcx.def_kind(did), DefKind::Fn | DefKind::AssocFn | DefKind::Closure)
+                && tcx.is_mir_available(did)
+            {
+                let body = tcx.instance_mir(inst.def);
+                for bb in body.basic_blocks.iter() {
+                    if let rustc_middle::mir::TerminatorKind::Call { func, .. } = &bb.terminator().kind {
+                        if let rustc_middle::mir::Operand::Constant(c) = func {
+                            if let ty::FnDef(callee, cargs) = c.const_.ty().kind() {
+                                if matches!(tcx.def_kind(*callee), DefKind::Fn | DefKind::AssocFn) {
+                                    if let Some(ci) = resolve(tcx, env, inst.args, *callee, cargs) {
+                                        intern(ci, &mut list, &mut work);
+                                    }
+                                }
+                            }
+                        }
+                    }
+                }
+            }
+            continue;
+        }
         let Some(ldid) = did.as_local() else { continue };
         if !matches!(inst.def, ty::InstanceKind::Item(_)) {
             continue;
